@@ -218,6 +218,13 @@ structure RawStamp where
   tod : Nat            -- microseconds since midnight
 deriving DecidableEq, Repr
 
+/-- `%y` (two-digit year) as `_strptime` converts it — the POSIX pivot: 00–68 → 2000–2068, 69–99 → 1969–1999
+(`if year <= 68: year += 2000 else: year += 1900`).  A stamp written with `%y` has `year = some (pivotYear yy)`. -/
+def pivotYear (yy : Nat) : Nat := if yy ≤ 68 then yy + 2000 else yy + 1900
+
+/-- the fields of a stamp whose year was written with two digits -/
+def RawStamp.ofTwoDigitYear (yy month day tod : Nat) : RawStamp := ⟨some (pivotYear yy), month, day, tod⟩
+
 /-- a naive `datetime.datetime` -/
 structure Time where
   year : Nat
